@@ -173,11 +173,39 @@ structure GwResult where
   errors : List String
   calls : List Call
 
-/-- plan → execute → scrub → envelope (introspection answers are modelled in Model/Introspect).
-    `scrubOrder` stands for the Go map iteration order over the scrub table (identity by default). -/
-def gateway (c : PCtx) (cfg : ExecCfg) (op : Op) (reqVars : Option (List (String × J))) (down : Downstream)
-    (scrubOrder : Scrub → Scrub := id) : G GwResult :=
-  match plan c op with
+/-- `applyDeclaredDefaults(operation, request)` (gateway.go): every variable definition of the
+    selected operation that declares a default, in order; a variable the client sent a value for
+    (an explicit `null` is a value) stays; `vd.DefaultValue.Value(nil)` is the constant
+    (`Spec.constToJ`; an error — impossible for a validated operation, whose defaults hold no
+    variables — passes the definition over); the map is created when it was nil (`none`). -/
+def applyDeclaredDefaults (varDefs : List VarDef) (reqVars : Option (List (String × J))) : Option (List (String × J)) :=
+  varDefs.foldl (fun rv vd =>
+    match vd.default with
+    | none => rv
+    | some d =>
+      if (J.lookup vd.name (rv.getD [])).isSome then rv else
+      match Spec.constToJ d with
+      | none => rv
+      | some v => some (J.setKey vd.name v (rv.getD []))) reqVars
+
+/-- the request's variables as planning and execution see them: with the client's declared
+    defaults when the handler fills them in (regenerated fact `Gen.Vars.declaredDefaultsApplied`),
+    as sent otherwise -/
+def withDeclaredDefaults (applied : Bool) (op : Op) (reqVars : Option (List (String × J))) : Option (List (String × J)) :=
+  if applied then applyDeclaredDefaults op.varDefs reqVars else reqVars
+
+/-- an operation without variable definitions: nothing to fill in, whatever the handler does -/
+theorem withDeclaredDefaults_noVarDefs (applied : Bool) (op : Op) (reqVars : Option (List (String × J)))
+    (h : op.varDefs = []) : withDeclaredDefaults applied op reqVars = reqVars := by
+  unfold withDeclaredDefaults applyDeclaredDefaults
+  cases applied <;> simp [h]
+
+/-- plan → execute → scrub → envelope for the variables as given (introspection answers are
+    modelled in Model/Introspect). `scrubOrder` stands for the Go map iteration order over the
+    scrub table (identity by default). -/
+def gatewayCoreWith (planner : PCtx → Op → G (List Step × Scrub)) (c : PCtx) (cfg : ExecCfg) (op : Op)
+    (reqVars : Option (List (String × J))) (down : Downstream) (scrubOrder : Scrub → Scrub := id) : G GwResult :=
+  match planner c op with
   | .error (.err m) => .ok ⟨none, [m], []⟩      -- planner error: GRAPHQL_VALIDATION_FAILED, data null
   | .error f => .error f
   | .ok (steps, sf) =>
@@ -185,6 +213,30 @@ def gateway (c : PCtx) (cfg : ExecCfg) (op : Op) (reqVars : Option (List (String
     | .ok st => .ok ⟨some (ScrubClean.cleanAll (scrubOrder sf) st.result), [], st.calls⟩
     | .error (.err m) => .ok ⟨none, [m], []⟩    -- execution error: data null, errors non-empty
     | .error f => .error f
+
+/-- `gatewayCoreWith` over the planner model of the theorems (`plan`) -/
+def gatewayCore (c : PCtx) (cfg : ExecCfg) (op : Op) (reqVars : Option (List (String × J))) (down : Downstream)
+    (scrubOrder : Scrub → Scrub := id) : G GwResult :=
+  gatewayCoreWith plan c cfg op reqVars down scrubOrder
+
+/-- the whole pipeline over another planner model (the driver passes `planFor`, which is `plan`
+    except where a fragment is expanded more than once, see Model/SanitizeShared.lean) -/
+def gatewayWith (planner : PCtx → Op → G (List Step × Scrub)) (c : PCtx) (cfg : ExecCfg) (op : Op)
+    (reqVars : Option (List (String × J))) (down : Downstream) (scrubOrder : Scrub → Scrub := id) : G GwResult :=
+  gatewayCoreWith planner c cfg op (withDeclaredDefaults Gen.Vars.declaredDefaultsApplied op reqVars) down scrubOrder
+
+/-- the per-request pipeline of `gateway.queryHandler` after validation and operation selection:
+    declared defaults (when the handler applies them) → plan → execute → scrub → envelope -/
+def gateway (c : PCtx) (cfg : ExecCfg) (op : Op) (reqVars : Option (List (String × J))) (down : Downstream)
+    (scrubOrder : Scrub → Scrub := id) : G GwResult :=
+  gatewayCore c cfg op (withDeclaredDefaults Gen.Vars.declaredDefaultsApplied op reqVars) down scrubOrder
+
+/-- for an operation without variable definitions `gateway` is `gatewayCore` on the variables as sent -/
+theorem gateway_noVarDefs (c : PCtx) (cfg : ExecCfg) (op : Op) (reqVars : Option (List (String × J)))
+    (down : Downstream) (scrubOrder : Scrub → Scrub) (h : op.varDefs = []) :
+    gateway c cfg op reqVars down scrubOrder = gatewayCore c cfg op reqVars down scrubOrder := by
+  unfold gateway
+  rw [withDeclaredDefaults_noVarDefs _ _ _ h]
 
 /-- the services of a federation as the model sees them -/
 structure Svc where
